@@ -96,6 +96,14 @@ def compare_scenario(ctx, pid, scn, sr, inputs_list, concs, report):
                 ctx.count("eval-unknown:" + str(u)[:30])
                 ok = None
                 undecided = True
+            except (AttributeError, TypeError, z3.Z3Exception) as u:
+                # a term shape the harness' evaluator does not handle: no verdict for this path (kept visible)
+                ctx.count("eval-error:" + type(u).__name__)
+                if len(ctx.notes) < 5:
+                    ctx.note(f"evaluator gap ({type(u).__name__}: {u}) on a path condition of program "
+                             f"{scn.main_code().hex()[:400]}; conds={[str(c)[:200] for c in p.conds][:6]}")
+                ok = None
+                undecided = True
             if ok:
                 covering.append((j, p, pe))
         base_replay = {
